@@ -5,6 +5,7 @@ package main
 // Pratt parser for spec expressions.
 
 import (
+	"unicode"
 	"fmt"
 	"go/scanner"
 	"go/token"
@@ -86,6 +87,7 @@ type Contract struct {
 	Loops    map[int]*LoopSpec
 	Snapshots map[int][]string // ghost snapshots of the whole state taken after the statement containing call N
 	Asserts  map[int][]Clause // by static call ordinal: proved, then assumed, after the statement containing the call
+	NamedOrd  map[string]int // callee name -> pseudo ordinal (negative) for `at call <name> …`
 	Pure     bool
 	Trusted  bool // contract assumed, body not verified (listed in evidence)
 	Inline   bool
@@ -302,6 +304,17 @@ func ParseContractFile(path, pkgPath string) (*ContractFile, error) {
 			ns, r2 := splitWord(r1)
 			w3, r3 := splitWord(r2)
 			n, err := strconv.Atoi(ns)
+			if err != nil && w1 == "call" && ns != "" && (ns[0] == '_' || unicode.IsLetter(rune(ns[0]))) {
+				// at call <calleeName> assert|snapshot: every call whose callee has that (unqualified)
+				// name; robust against statement reordering, unlike the static ordinal
+				if cur.NamedOrd == nil {
+					cur.NamedOrd = map[string]int{}
+				}
+				if _, ok := cur.NamedOrd[ns]; !ok {
+					cur.NamedOrd[ns] = -(len(cur.NamedOrd) + 1)
+				}
+				n, err = cur.NamedOrd[ns], nil
+			}
 			if w1 == "call" && w3 == "snapshot" && err == nil {
 				if cur.Snapshots == nil {
 					cur.Snapshots = map[int][]string{}
